@@ -134,7 +134,7 @@ const (
 	gdFontCFF      = "/repo/resources/Dynalight-Regular.otf" // "OTTO" sfnt with CFF outlines (sfnt.IsCFF), 44 kB
 	gdMaxItems     = 14
 	gdMaxPageItems = 6
-	gdDefectProb   = 0.07 // per document and per non-avoided defect class
+	gdDefectProb   = 0.15 // per document and per non-avoided defect class
 )
 
 // ---------------------------------------------------------------------------------------------------
